@@ -240,6 +240,14 @@ func (np *NetworkPolicy) ruleSelectsPeer(rulePeers []netv1.NetworkPolicyPeer, pe
 			var err error
 			if rulePeers[i].NamespaceSelector == nil {
 				peerMatchesNamespaceSelector = (np.ObjectMeta.Namespace == peer.GetPeerPod().Namespace)
+				if !peerMatchesNamespaceSelector && isPeerRepresentative(peer) {
+					// a representative peer inferred from a rule with an explicit namespace-name selector has no namespace string
+					policyNsSelector := &metav1.LabelSelector{MatchLabels: map[string]string{common.K8sNsNameLabelKey: np.ObjectMeta.Namespace}}
+					peerMatchesNamespaceSelector, err = SelectorsFullMatch(policyNsSelector, peer.GetPeerPod().RepresentativeNsLabelSelector)
+					if err != nil {
+						return false, err
+					}
+				}
 			} else {
 				peerNamespace := peer.GetPeerNamespace()
 				var peerNsLabels map[string]string
